@@ -65,12 +65,13 @@ PROPS = {
                       'addresses are untouched (unit layout: L3a/L3b, graph push), and the real decoder implements that spec decoder (unit '
                       'decode: dec_view == dec); (4) streaming a well-formed graph yields its listing in order (unit stream), len() is the '
                       'footer field (unit open). All fan-outs 0..256, all pack widths, values to u64::MAX, every cache geometry.',
-        'level_note': 'Assumed: sums of outputs along a path fit in u64 (argued); the stream unit states its contracts over an abstract '
-                      'graph function whose identification with graph(bytes) is argued (the decode unit proves the accessor contracts over '
-                      'dec_view == dec); Registry::entry in the set-of-residents phrasing; std contracts (write_all, Vec, slice order). '
-                      'from_iter / extend_* front ends not decided.',
+        'level_note': 'Sums of outputs along a path fit in u64: proved (builder: sums_ok carried through every stack operation, no assumption '
+                      'left in Output::cat; compose: thm_built_file_fits gives the streams\' `fits` and the lookups\' `sums_fit` for every built '
+                      'file). The reader units state their contracts over fdom(file), whose identification with the addresses of graph(body) is '
+                      'argued (units are separate files; unit compose proves wf_graph, the listing, fits and canon for that choice). '
+                      'Registry::entry is assumed clause-for-clause as verified in unit registry. std contracts (write_all, Vec, slice order).',
         'explanation': '',
-        'assumptions': ['iterator front ends (from_iter, extend_iter, extend_stream) not decided by a verifier'],
+        'assumptions': [],
     },
     'C09': {
         'units': ['encode', 'layout', 'decode', 'builder', 'bytesio'],
@@ -122,19 +123,31 @@ PROPS = {
         'assumptions': ['OpBuilder::push boxes a `dyn Streamer`: assumed to append a stream yielding the argument\'s items', 'Set::is_disjoint/is_subset/is_superset wrappers not under contract'],
     },
     'C12': {
-        'units': ['registry', 'builder'],
+        'units': ['registry', 'builder', 'compose'],
         'kani': ['registry_find'],
-        'own': {'builder': r'Builder::compile$|BuilderNode|RegistryCell'},
-        'level_text': 'Proof of the sharing mechanism: RegistryCache::{entry, promote}, Registry::{entry, hash}, RegistryCell::* and '
-                      'BuilderNode::clone_from are verified on their real bodies for every cache geometry: a node that is resident in its row '
-                      'is always found and the address recorded for that very node is returned; a hit moves exactly that cell to the front; a '
-                      'miss evicts exactly the last cell of the row; other rows are untouched. Builder::compile never writes a resident node '
-                      'twice and records a node only with the address it was emitted at.',
-        'level_note': 'The global clauses of the property - minimal acyclic DFA, trie bound, sharing ratio on corpora - have no function '
-                      'contract behind them and are not decided. The builder unit assumes Registry::entry in a set-of-residents phrasing '
-                      'that the registry unit proves in its table phrasing (correspondence argued). Derived PartialEq of BuilderNode restated.',
+        'own': {'builder': r'Builder::(compile|compile_from|insert_output|into_inner|new_type|thm_no_duplicate_nodes)$|BuilderNode|RegistryCell|lemma_cfx|lemma_tsz|lemma_lcp'},
+        'level_text': 'Proof. Cache mechanism: RegistryCache::{entry, promote}, Registry::{entry, hash}, RegistryCell::* and '
+                      'BuilderNode::clone_from are verified on their real bodies for every cache geometry (a resident node is always found, '
+                      'with the address recorded for that very node; a hit moves exactly that cell to the front; a miss evicts exactly the '
+                      'last cell of the row - and nothing at all unless that cell was occupied; other rows are untouched). The builder sees '
+                      'the cache through a contract that is, clause for clause, a subset of what unit registry verifies (CONTRACT-WEAKER-THAN). '
+                      'No eviction => no duplicates: Builder::compile keeps "every emitted node is still recorded" (all_res) as long as the '
+                      'row of the node it records has room, a node is recorded with one address only, and thm_no_duplicate_nodes derives that '
+                      'no node has been written twice. Minimality for sets: every emitted node is live, never the shared empty final node and '
+                      '(all values 0) carries no output - carried through the builder into `built`; thm_equivalent_states_are_one / '
+                      'thm_built_set_minimal (unit compose): in such a graph without duplicates two states that accept the same keys are the '
+                      'same state. Trie bound: |emitted nodes| + |unfinished frames| <= 1 + tsz(keys so far) is an invariant of the builder '
+                      '(one node at most per frame taken off the stack; a new key adds as many frames as bytes it does not share with its '
+                      'predecessor), so a finished file has at most 1 + tsz(keys) nodes.',
+        'level_note': '"As long as no eviction has happened" is stated per call of Builder::compile (the only function that writes nodes or '
+                      'touches the cache) plus a state theorem; the induction over the calls of one build is not a single mechanised statement. '
+                      'tsz(keys) is the recurrence "each key adds the bytes it does not share with its predecessor" - that this is the number '
+                      'of non-root nodes of the prefix trie of a sorted key list is the standard argument, not mechanised. The sharing ratio on '
+                      'the shipped corpora is an empirical clause no contract decides (a smaller but well-formed cache geometry passes). '
+                      'Registry::new (vec![cell; n]) and the derived PartialEq of BuilderNode are assumed.',
         'explanation': '',
-        'assumptions': ['minimality / trie bound / corpus sharing ratio: not expressible as function contracts (DESIGN.md section 10)'],
+        'assumptions': ['corpus sharing ratio: not decidable by a function contract (DESIGN.md section 10)',
+                        'trie size as the recurrence tsz: identification with the cardinality of the prefix set argued'],
     },
     'C03': {
         'units': ['stream', 'decode', 'builder', 'encode', 'bytesio', 'cw', 'layout', 'compose'],
@@ -147,7 +160,7 @@ PROPS = {
                       'sets exactly its own bound (so the last setting wins) and into_stream composes them.',
         'level_note': 'Node accessors / FstRef::node are assumed contracts (decoder, unit decode); the hoisted position(|t| t.inp > b) '
                       'expression is an assumed contract (Kani K-scan). That the listing is strictly ascending and agrees with get() is a '
-                      'spec-level consequence of wf_graph (listing lemmas). Partial output sums fit in u64: precondition `fits`.',
+                      'spec-level consequence of wf_graph (listing lemmas). Partial output sums fit in u64: the precondition `fits`, proved of every built file in unit compose (thm_built_file_fits).',
         'explanation': '',
         'assumptions': [],
     },
@@ -166,17 +179,24 @@ PROPS = {
         'assumptions': ['search_with_state: the reported automaton state is not covered by the contract'],
     },
     'C16': {
-        'units': ['getkey'],
-        'kani': ['getkey_take_while_last'],
+        'units': ['getkey', 'builder', 'compose', 'decode', 'encode', 'layout', 'bytesio', 'cw'],
+        'kani': ['getkey_take_while_last', 'read_le', 'unpack_le', 'common_tables'],
+        'own': {'builder': r'Output::|find_common_prefix_and_set_output|add_output_prefix|add_suffix|last_compiled|top_last_freeze|pop_freeze|pop_empty|pop_root|set_root_output|'
+                           r'Builder::(compile|compile_from|insert_output|insert|into_inner|new_type|new|extend_iter|extend_stream)$|MapBuilder|lemma_'},
         'level_text': 'Proof: FstRef::get_key_into (real body, one R11 hoist) and the Fst::get_key / get_key_into wrappers are verified '
                       'against lookup over the decoded graph: true with exactly the key of value v appended to the caller\'s buffer, false '
-                      'only if no key has value v - including a final root with a non-zero output (the empty key).',
-        'level_note': 'Assumed: the structural shape `canon` of the graph (per node: inputs unique, outputs strictly increasing and dominating '
-                      'everything below the previous transition, non-root final outputs 0) that the builder gives a map whose values increase '
-                      'with the keys - argued, not carried through the builder unit. Node accessors and the hoisted take_while(..).last() '
-                      'expression are assumed contracts (unit decode / Kani K-scan).',
+                      'only if no key has value v - including a final root with a non-zero output (the empty key) - under the structural '
+                      'premise `canon` on the nodes reachable from the root. That premise is derived for built maps: the builder unit carries '
+                      'the output placement ("below every node but the root some key carries no further output": tix / split_ok / ftight) '
+                      'through find_common_prefix_and_set_output, compile_from, compile, insert_output, insert and the map front ends into '
+                      'fin_post; unit compose (thm_built_canon) proves canon for every such file whose values strictly increase with its keys.',
+        'level_note': 'Node accessors are assumed contracts proved in unit decode (CONTRACT-OF); the hoisted take_while(..).last() expression is '
+                      'an assumed contract (Kani K-scan: window 8 quick / 40 thorough: bounded). The identification of the readers\' fdom(file) '
+                      'with the addresses of graph(body) is argued (units are separate files). A raw builder that mixes insert with a repeated '
+                      'add of the same key may move a value off the path (the model stays right, the placement is not kept): such histories are '
+                      'outside the premise (ti is kept by insert and the map front ends only).',
         'explanation': '',
-        'assumptions': ['canon(graph, root) for maps with strictly increasing values: assumed precondition (DESIGN.md C16)'],
+        'assumptions': ['K-scan getkey_take_while_last is a bounded stand-in for fan-outs beyond its window'],
     },
     'C06': {
         'units': ['builder'],
